@@ -30,6 +30,25 @@ def main():
         status = "done"
     except Exception as e:
         status = "crashed"
+        # Who raised?  If the innermost frame is library code, the library
+        # refused or failed on a call the monitor makes as a matter of
+        # course on the unchanged tree: that is an observation about the
+        # library (reported as a deviation, with the case that was being
+        # executed), not a fault of the monitor.  Anything else is a monitor
+        # error and makes the verdict inconclusive.
+        tb = traceback.extract_tb(e.__traceback__)
+        inner = tb[-1].filename if tb else ""
+        repo = os.path.realpath(env.REPO)
+        if os.path.realpath(inner).startswith(repo + os.sep):
+            mon.dev("library-raised-where-the-workload-expects-an-answer",
+                    {"raised": repr(e), "at": "%s:%s in %s" % (
+                        os.path.relpath(os.path.realpath(inner), repo),
+                        tb[-1].lineno, tb[-1].name),
+                     "called_from": next(
+                         ("%s:%s in %s" % (os.path.basename(f.filename),
+                                           f.lineno, f.name)
+                          for f in reversed(tb)
+                          if "/vpm/" in f.filename), None)})
         mon.error("run:" + traceback.format_exc(limit=6), e)
     res = mon.to_dict()
     res["status"] = status
